@@ -56,6 +56,10 @@ def main():
         from . import interactive
 
         interactive.main()
+    elif pid == "C17":
+        from . import cli
+
+        cli.main()
     else:
         print("no check registered for %s" % pid)
         sys.exit(3)
